@@ -2829,7 +2829,74 @@ func famAttest(r *Rng, o *Out, tier string) {
 
 // ---------------------------------------------------------------- C08 proof
 
+// a proof whose ENCODED form carries the raw, unfinalised chain value (the exported fields of a never-encoded proof
+// copied into a fresh Macaroon value, which Encode does not finalise) is no finalised proof: refused as a root under
+// its own key, refused as a discharge of its caveat, and so is a copy extended by hand from that raw tail
+func rawTailProofRun(r *Rng) string {
+	for i := 0; i < 6; i++ {
+		key, ka := r.Bytes(32), r.Bytes(32)
+		loc, tpLoc := "https://api.fly.io/v1", "https://auth.example"
+		root, _ := macaroon.New(r.Bytes(8), loc, key)
+		c3, err := macaroon.NewCaveat3P(ka, tpLoc)
+		if err != nil || root.Add(c3) != nil {
+			return "harness-error"
+		}
+		rootB := mustEnc(root)
+		rn, _ := ticketKey(ka, c3.Ticket)
+		_, dm, err := macaroon.DischargeTicket(ka, tpLoc, c3.Ticket)
+		if err != nil {
+			return "harness-error(discharge)"
+		}
+		if i%2 == 1 {
+			dm.Add(r.plainCav(1))
+		}
+		raw := &macaroon.Macaroon{Nonce: dm.Nonce, Location: dm.Location, UnsafeCaveats: dm.UnsafeCaveats, Tail: append([]byte{}, dm.Tail...)}
+		rawB, err := raw.Encode()
+		if err != nil {
+			return "harness-error(encode)"
+		}
+		try := func(b []byte) string {
+			if d, err := macaroon.Decode(b); err == nil {
+				if _, err := d.Verify(rn, nil, nil); err == nil {
+					return "unfinalised-tail-verified-as-a-root"
+				}
+			}
+			if m, err := macaroon.Decode(rootB); err == nil {
+				if _, err := m.Verify(key, [][]byte{b}, nil); err == nil {
+					return "unfinalised-tail-accepted-as-a-discharge"
+				}
+			}
+			return ""
+		}
+		if v := try(rawB); v != "" {
+			return v
+		}
+		// extended by hand from the raw tail
+		ext, err := macaroon.Decode(rawB)
+		if err != nil {
+			continue
+		}
+		c := r.plainCav(0)
+		ce, _ := encOne(c)
+		ext.UnsafeCaveats.Caveats = append(ext.UnsafeCaveats.Caveats, c)
+		ext.Tail = hmacSum(ext.Tail, ce)
+		if eb, err := ext.Encode(); err == nil {
+			if v := try(eb); v != "" {
+				return v + "(hand-extended)"
+			}
+		}
+		// sanity: the genuine, finalised proof is accepted
+		if m, err := macaroon.Decode(rootB); err == nil {
+			if _, err := m.Verify(key, [][]byte{mustEnc(dm)}, nil); err != nil {
+				return "finalised-proof-refused"
+			}
+		}
+	}
+	return "sound"
+}
+
 func famProof(r *Rng, o *Out, tier string) {
+	o.emit("(const sound)", rawTailProofRun(r))
 	n := 600
 	if tier == "thorough" {
 		n = 6000
